@@ -104,7 +104,7 @@ class C07(Check):
         knobs["SLEEP_TIMER"] = rng.choice([0.1, 0.3])
         if any(st["op"] == "backlog_dwr" for cn in conns for st in cn["steps"]):
             knobs["SEND_BUFFER_MAXIMUM_SIZE"] = rng.choice([1800, 2400, 4096])
-        scn = {"mode": mode, "conns": conns, "sched": draw_sched(rng), "knobs": knobs, "bystander": bystander_for(index),
+        scn = {"mode": mode, "conns": conns, "sched": draw_sched(rng), "knobs": knobs, "bystander": bystander_for(index, every=4, phase=2),
                "net": {"max_latency": rng.choice([0.0005, 0.003]), "p_fragment": rng.choice([0.0, 0.3]),
                        "p_partial_write": rng.choice([0.0, 0.3])},
                "watchdog": 30, "horizon": 150.0}
